@@ -1009,13 +1009,41 @@ func ctTraces(t *testing.T, res *vResult, plan ctPlan, prop string) {
 					default:
 						na := genAtoms()
 						if ctRulesAgree(unit, g.TO, na, opts, tuples, allowedBy(na)) {
-							atoms = na
-							if rnd.Intn(8) == 0 {
+							cycle := false
+							switch rnd.Intn(8) {
+							case 0:
 								w.shiftVersions()
 								res.Hit("T:Reload-wrap")
+							case 1, 2:
+								// a full turn of the 16-bit version counter: 65536 changed reloads without traffic in between, the
+								// last of which installs the new rules.  The counter alone is moved (that is all such a reload
+								// does to the state), the reload that wraps and the last one are real.
+								cycle = true
+								cur := w.ifc.firewall.rulesVersion
+								w.ifc.firewall.rulesVersion = 65535
+								w.reload(atoms, true)
+								tr.Event(map[string]any{"ev": "Reload", "rules": rulesOf(atoms), "cert_unsafe": opts.unsafe})
+								w.ifc.firewall.rulesVersion = cur - 1
+								res.Hit("T:Reload-full-turn")
 							}
+							atoms = na
 							w.reload(atoms, true)
 							res.Hit("T:Reload")
+							if cycle {
+								if w.ifc.firewall.rulesVersion != 0 {
+									res.Hit("T:Reload-full-turn:same-version-again")
+								}
+								// every flow is tried right away, both directions, under the rules that are in force now
+								tr.Event(map[string]any{"ev": "Reload", "rules": rulesOf(atoms), "cert_unsafe": opts.unsafe})
+								for ff := range tuples {
+									for _, inc := range []bool{false, true} {
+										pass, _ := w.drop(tuples[ff], inc)
+										tr.Event(map[string]any{"ev": "Pkt", "f": ff + 1, "inc": inc, "pass": pass})
+										res.Hit("T:Pkt")
+									}
+								}
+								continue
+							}
 						}
 					}
 					tr.Event(map[string]any{"ev": "Reload", "rules": rulesOf(atoms), "cert_unsafe": opts.unsafe})
